@@ -218,7 +218,11 @@ def seed_rules(an: Analysis, rep):
             models = [{"positional_only": (), "positional_or_keyword": ("a",), "var_positional": None, "keyword_only": ("k",), "var_keyword": None},
                       {"positional_only": ("p",), "positional_or_keyword": ("a", "b"), "var_positional": "va", "keyword_only": ("k",), "var_keyword": "kw"},
                       {"positional_only": (), "positional_or_keyword": (), "var_positional": None, "keyword_only": (), "var_keyword": None},
-                      {"positional_only": (), "positional_or_keyword": (), "var_positional": None, "keyword_only": ("k", "l"), "var_keyword": "kw"}]
+                      {"positional_only": (), "positional_or_keyword": (), "var_positional": None, "keyword_only": ("k", "l"), "var_keyword": "kw"},
+                      # hand-altered co_varnames: two parameters with one name, an empty name - CPython binds every slot
+                      {"positional_only": (), "positional_or_keyword": ("a", "a"), "var_positional": None, "keyword_only": (), "var_keyword": None},
+                      {"positional_only": (), "positional_or_keyword": ("a", "b"), "var_positional": "b", "keyword_only": ("d",), "var_keyword": "a"},
+                      {"positional_only": (), "positional_or_keyword": ("a",), "var_positional": None, "keyword_only": (), "var_keyword": ""}]
             if dparam and ebase:
                 dev = c04._args_evaluator(an, dfn)
                 eev = c04._args_evaluator(an, efn)
